@@ -97,7 +97,11 @@ StmtBytes(p, s) ==
       [] s.k = "i1c" -> <<168, s.v>>
       [] s.k = "str" -> <<97, 34, 98, 0>>
       [] OTHER -> <<s.v, s.w>>
+\* the local label l1 lives in the region opened by the global label g1: g1 has to come before its definition and uses
+LocalOk(p) == \A j \in 1..Len(p) : (p[j].n = "l1" /\ p[j].k \in {"lab", "i1l"}) =>
+                  \E i \in 1..(j - 1) : p[i].k = "lab" /\ p[i].n = "g1"
 WellFormed(p) == /\ \A j \in 1..Len(p) : p[j].k = "i1l" => LabelAddr(p, p[j].n) >= 0
+                 /\ LocalOk(p)
                  /\ \A i, j \in 1..Len(p) : (i # j /\ p[i].k = "lab" /\ p[j].k = "lab") => p[i].n # p[j].n
 Bytes(p) == FoldLeft(LAMBDA acc, s : acc \o StmtBytes(p, s), <<>>, p)
 
